@@ -317,6 +317,12 @@ class Executor(CallMixin, EvalMixin, ExprMixin, StmtMixin):
         for k, v in c.loops.items(): self.loop_specs[(qual, k)] = v
         self.declared_locals = dict(c.ghost.get("__locals__", {})) if isinstance(c.ghost.get("__locals__"), dict) else {}
         self.pending_facts = []
+        if c.yields is None and any(isinstance(n_, (ast.Yield, ast.YieldFrom)) for n_ in ast.walk(fnode)):
+            # the contract promises a value (a list, ...) but the function is a generator now: every caller that uses the result twice,
+            # asks for its length or indexes it gets something else than the contract says
+            st0 = State(); st0.ctx = (module, None, qual)
+            self.oblige(st0, z3.BoolVal(False), "function-became-a-generator-but-its-contract-returns-a-value", fnode)
+            return self.obligations[start:]
         st = self.initial_state(c, fnode, module, cls)
         for fn_ in c.axioms_of:
             for ax in R.SPECFUNS[fn_].axioms: st.assume(self.spec_eval(ax, st, c))
